@@ -11,6 +11,8 @@ Circuit spec (the JSON input of most items):   {"regs": [n_emitter, n_photon, n_
       | ["cx"|"cz", ctype, c, ttype, t]              CNOT / CZ
       | ["ccx"|"ccz"|"mcr", ctype, c, ttype, t, creg]  ClassicalCNOT / ClassicalCZ / MeasurementCNOTandReset
       | ["mz", type, reg, creg]                      MeasurementZ
+A spec may carry "edits": [["replace", k, op] | ["remove", k] | ["insert_front", op]] applied after the adds through the real
+replace_op / remove_op / insert_at (k = index into "ops"; insert_front puts a one-qubit op first on its register).
 Atom spec (single-operation items):  ["g", Class, type] | ["w", [Class..], type] | ["cx", ctype, ttype] | ... |
    ["mz", type]; the checker places the op on every register index (and classical register) from IDX = {0,1,9,10,11}.
 
@@ -88,11 +90,57 @@ def make_op(op):
 
 
 def build(spec):
+    """the real circuit: ops added with add(); then the optional edits through replace_op / remove_op / insert_at"""
     ne, np_, nc = spec["regs"]
     c = CircuitDAG(n_emitter=ne, n_photon=np_, n_classical=nc)
+    objs = []
     for op in spec["ops"]:
-        c.add(make_op(op))
+        o = make_op(op)
+        c.add(o)
+        objs.append(o)
+
+    def node_of(obj):
+        for n in c.dag.nodes:
+            if c.dag.nodes[n]["op"] is obj:
+                return n
+        raise KeyError("operation object not found in the DAG")
+
+    for ed in spec.get("edits", []):
+        if ed[0] == "replace":
+            o = make_op(ed[2])
+            c.replace_op(node_of(objs[ed[1]]), o)
+            objs[ed[1]] = o
+        elif ed[0] == "remove":
+            c.remove_op(node_of(objs[ed[1]]))
+            objs[ed[1]] = None
+        elif ed[0] == "insert_front":
+            op = ed[1]
+            w = f"{op[2]}{op[3]}"
+            edge = [e for e in c.dag.out_edges(f"{w}_in", keys=True) if e[2] == w][0]
+            c.insert_at(make_op(op), [edge])
+        else:
+            raise ValueError(ed)
     return c
+
+
+def eff(spec):
+    """the spec of the circuit after its edits (what the circuit is, register by register)"""
+    if not spec.get("edits"):
+        return spec
+    ops_ = list(spec["ops"])
+    front = []
+    for ed in spec["edits"]:
+        if ed[0] == "replace":
+            ops_[ed[1]] = ed[2]
+        elif ed[0] == "remove":
+            ops_[ed[1]] = None
+        else:
+            front.insert(0, ed[1])  # first on its register; a later insert_front on the same register goes before it
+    return {"regs": spec["regs"], "ops": front + [o for o in ops_ if o is not None]}
+
+
+def all_ops(spec):
+    return list(spec["ops"]) + [ed[-1] for ed in spec.get("edits", []) if ed[0] != "remove"]
 
 
 def min_regs(ops_):
@@ -207,7 +255,7 @@ def c_qasm_roundtrip(spec):
         c2 = CircuitDAG.from_openqasm(text)
     except Exception as e:  # noqa: BLE001 - the property allows no exception: every exported text must import
         return f"from_openqasm(to_openqasm(C)) raised {type(e).__name__}: {str(e)[:160]}"
-    return compare_circuit(spec, c2, "openQASM round trip")
+    return compare_circuit(eff(spec), c2, "openQASM round trip")
 
 
 def c_json_roundtrip(spec):
@@ -223,7 +271,7 @@ def c_json_roundtrip(spec):
             c2 = CircuitDAG.from_json(d)
         except Exception as e:  # noqa: BLE001
             return f"from_json(to_json(C)) [{label}] raised {type(e).__name__}: {str(e)[:160]}"
-        r = compare_circuit(spec, c2, f"JSON round trip [{label}]")
+        r = compare_circuit(eff(spec), c2, f"JSON round trip [{label}]")
         if r:
             return r
     return None
@@ -357,6 +405,7 @@ def c_text_semantics(spec):
     measurement record"""
     ne, np_, nc = spec["regs"]
     c = build(spec)
+    spec = eff(spec)
     text = c.to_openqasm()
     try:
         prog = Q.parse(text)
@@ -511,7 +560,7 @@ def atom_ok(family, atom):
 
 
 def judged(family, spec):
-    return all(atom_ok(family, atom_of(op)) for op in spec["ops"])
+    return all(atom_ok(family, atom_of(op)) for op in all_ops(spec))
 
 
 ALL_ATOMS = (
@@ -524,13 +573,13 @@ ALL_ATOMS = (
 _SITE_EXP = "graphiq.circuit.circuit_base:CircuitBase.to_openqasm"
 _SITE_IMP = "graphiq.circuit.circuit_dag:CircuitDAG.from_openqasm"
 _SITE_JS = "graphiq.circuit.circuit_dag:CircuitDAG.from_json"
-_ATOM_BOUND = ("every op kind x register-type mix (7 one-qubit classes, 24 Clifford wrappers + 6 more, CNOT, CZ, ClassicalCNOT, "
+_ATOM_BOUND = ("fixed sample, seed-independent, same in both tiers (touches known findings C14-F1..F5): every op kind x register-type mix (7 one-qubit classes, 24 Clifford wrappers + 6 more, CNOT, CZ, ClassicalCNOT, "
                "ClassicalCZ, MeasurementCNOTandReset, MeasurementZ): %d atoms, each placed on every register index / "
                "classical register from {0,1,9,10,11} (control != target on one type)" % len(ALL_ATOMS))
 
 
 @S.item("json_tables.inverse", site="graphiq.circuit.ops:name_to_class_map",
-        bound="the 13 operation classes to_json can meet", exhaustive=True,
+        bound="fixed sample, seed-independent (touches known finding C14-F2): the 13 operation classes to_json can meet", exhaustive=True,
         clause="JSON export then import gives the same operations (name tables are mutually inverse)")
 def json_table_case(cls_name):
     K = getattr(gops, cls_name)
@@ -567,7 +616,7 @@ def _composite(family, spec):
     return CONTRACTS[family](spec)
 
 
-_PAIR_BOUND = ("all ordered pairs of operation instances: every kind (as in the 1-op items) on registers {%s} x types "
+_PAIR_BOUND = ("fixed sample, seed-independent (quick is a subset of thorough); all ordered pairs of operation instances: every kind (as in the 1-op items) on registers {%s} x types "
                "{e,p}, classical registers {%s}; pairs containing a kind/type mix whose 1-op item fails are not judged")
 
 
@@ -589,7 +638,9 @@ def pair_sem(spec):
     return _composite("sem", spec)
 
 
-_RAND_BOUND = "seeded random circuits, 3-12 operations, kinds drawn from the atoms that hold on the current tree"
+_RAND_BOUND = ("seeded random circuits, 3-12 operations added with add(), half of them then edited 1-3 times through replace_op / "
+               "remove_op / insert_at (exercises the header state openqasm_defs after edits); by construction they contain only operation kinds / register-type mixes whose "
+               "1-op item holds on the current tree, so they cannot meet a known finding (all of which are 1-op failures)")
 
 
 @S.item("from_openqasm.roundtrip_random", site=_SITE_IMP, bound=_RAND_BOUND,
@@ -610,7 +661,8 @@ def rand_sem(spec):
 
 
 @S.item("export.deterministic", site=_SITE_EXP,
-        bound="all 1-op circuits on registers {1,10}, every 7th 2-op circuit, the random circuits: two exports of one "
+        bound="all 1-op circuits on registers {1,10}, every 7th 2-op circuit, the seeded random circuits (no known finding concerns "
+              "determinism): two exports of one "
               "circuit and of an identically rebuilt circuit (openQASM text and JSON)",
         clause="export is deterministic")
 def determinism_case(spec):
@@ -646,7 +698,8 @@ def determinism_proc_case(specs):
 
 
 @S.item("roundtrip.compiled_state", site="graphiq.circuit.circuit_dag:CircuitDAG.from_openqasm",
-        bound="random circuits on <= 3 emitters / <= 3 photons with at most one measuring operation (with two, the forced-outcome "
+        bound="seeded random circuits (only kinds whose 1-op round trip holds on the current tree - cannot meet a known finding) "
+              "on <= 3 emitters / <= 3 photons with at most one measuring operation (with two, the forced-outcome "
               "modes depend on the order in which unordered measurements are listed - not a round-trip matter): real DensityMatrixCompiler (measurement determinism 0 and 1) "
               "on the original and on the openQASM- and JSON-imported circuit",
         clause="hence the same compiled state")
@@ -699,7 +752,7 @@ def instances(regs, cregs, wrappers=WRAPPERS):
     return out
 
 
-def random_spec(rng, atoms_ok, max_meas=None, small=False):
+def random_spec(rng, atoms_ok, max_meas=None, small=False, edits=True):
     """a random circuit; `atoms_ok(atom)` filters the op kinds"""
     if small or rng.random() < 0.6:
         ne, np_, nc = int(rng.integers(1, 4)), int(rng.integers(1, 4)), int(rng.integers(1, 4))
@@ -738,7 +791,46 @@ def random_spec(rng, atoms_ok, max_meas=None, small=False):
                 continue
             meas += 1
         ops_.append(op)
-    return {"regs": [ne, np_, nc], "ops": ops_}
+    spec = {"regs": [ne, np_, nc], "ops": ops_}
+    if edits and ops_ and rng.random() < 0.5:
+        eds = []
+        alive = list(range(len(ops_)))
+        cur = list(ops_)
+
+        def one_qubit_on(t, r):
+            for _ in range(50):
+                if rng.random() < 0.5:
+                    o = ["g", ONEQ[int(rng.integers(len(ONEQ)))], t, r]
+                else:
+                    o = ["w", WRAPPERS[int(rng.integers(len(WRAPPERS)))], t, r]
+                if atoms_ok(atom_of(o)):
+                    return o
+            return None
+
+        for _ in range(int(rng.integers(1, 4))):
+            u = rng.random()
+            if u < 0.4:
+                cand = [k for k in alive if cur[k][0] in ("g", "w")]
+                if not cand:
+                    continue
+                k = cand[int(rng.integers(len(cand)))]
+                o = one_qubit_on(cur[k][2], cur[k][3])
+                if o is None:
+                    continue
+                eds.append(["replace", k, o])
+                cur[k] = o
+            elif u < 0.7 and len(alive) > 1:
+                k = alive[int(rng.integers(len(alive)))]
+                eds.append(["remove", k])
+                alive.remove(k)
+            else:
+                a = qs[int(rng.integers(len(qs)))]
+                o = one_qubit_on(a[0], a[1])
+                if o is not None:
+                    eds.append(["insert_front", o])
+        if eds:
+            spec["edits"] = eds
+    return spec
 
 
 def run(tier, seed):
@@ -757,7 +849,7 @@ def run(tier, seed):
         S.note(f"{item}: {len(failed)} of {len(ALL_ATOMS)} atoms fail on this tree; composites containing them are not judged for '{fam}'")
 
     # ---- pairs
-    regs, cregs = ([1, 9, 10], [0, 10, 11]) if thorough else ([1, 10], [0, 11])
+    regs, cregs = ([1, 9, 10], [0, 11]) if thorough else ([1, 10], [0, 11])
     wr = WRAPPERS if thorough else WRAPPERS24[1:] + WRAPPERS_EXTRA[:2]
     inst = instances(regs, cregs, wr)
     pairs = [{"regs": min_regs([a, b]), "ops": [a, b]} for a in inst for b in inst]
